@@ -10,6 +10,9 @@ package flushable
 //@ // was called with (obligations lock.guard / lock.balanced, generated for every function of this file's claims)
 //@ guarded flushableReader.modified by lock
 //@ guarded Flushable.sizeEstimation by flushableReader.lock
+//@ // the flush-buffering pool: the table of wrapped databases under the pool's mutex, the queue of drops under its own
+//@ guarded SyncedPool.wrappers by Mutex
+//@ guarded SyncedPool.queuedDrops by queuedDropsMu
 //@ ghost nOnDropF int
 //@ ghost gProdN int
 //@ ghost gProdR0 kvdb.Store
@@ -175,6 +178,7 @@ package flushable
 //@ spec wOK(w *closeDropWrapped) bool = w != nil && w.LazyFlushable != nil && w.LazyFlushable.Flushable != nil && w.LazyFlushable.Flushable.underlying != nil && w.LazyFlushable.Flushable.sizeEstimation != nil && (w.LazyFlushable.Flushable.flushableReader.modified != nil ==> ovOK(w.LazyFlushable.Flushable.flushableReader.modified))
 //@ func (*SyncedPool).flush
 //@   requires p != nil && p.queuedDrops != nil && len(id) <= 4611686018427387904 && forall(n string, has(p.wrappers, n) ==> wOK(p.wrappers[n].Flushable))
+//@   requires [locked] wlocked(p.Mutex)
 //@   modifies p.queuedDrops, p.wrappers[*], gRealCloseN, gDroperDropN, gDroperDropRecv, gInitN, gInitRecv, gInitR0, gInitR1, gLFlushN, gLFlushRecv, gLFlushR0, gDMat[*], gCMat[*], gFlAt[*], gKeyValueWriterPutN, gKeyValueWriterPutRecv, gKeyValueWriterPutA0, gKeyValueWriterPutA1, gKeyValueWriterPutR0, gWrOpN, gWrOpKind[*], gWrOpRecv[*], gWrOpKey[*], gWrOpVal[*], gWrOpErr[*], gProdN, gProdR0, gProdR1, all(Flushable).underlying, all(flushableReader).underlying, all(LazyFlushable).producer, tHas[*], tVal[*], tN[*], tKey[*], tNode[*], allcells(int), gBatcherNewBatchN, gBatcherNewBatchRecv, gBatcherNewBatchR0, gBatchValueSizeN, gBatchValueSizeRecv, gBatchValueSizeR0, gBatchWriteN, gBatchWriteRecv, gBatchWriteR0, gBatchResetN, gBatchResetRecv, gKeyValueWriterDeleteN, gKeyValueWriterDeleteRecv, gKeyValueWriterDeleteA0, gKeyValueWriterDeleteR0
 //@   at call flushable.MarkFlushID[2] ghost gDMat[w.Flushable] = ite(gWrOpErr[gWrOpN - 1] == nil && gWrOpRecv[gWrOpN - 1] == gInitR0 && gInitRecv == w.Flushable.LazyFlushable && wmark(gWrOpN - 1, 222, id, p.flushIDKey), gWrOpN - 1, -1) after
 //@   at call flushable.LazyFlushable).Flush[1] requires [alldirty] forall(n string, has(p.wrappers, n) ==> gDMat[p.wrappers[n].Flushable] >= old(gWrOpN))
